@@ -136,4 +136,22 @@ REFACTORS = [
      "emptiness of the document list tested by truth value (a list of documents, not a document)", ["C09"]),
     ("matching.py", [("        ), max_edge) + 1\n", "        ), max_edge) + 2\n")],
      "sentinel margin 2 instead of 1", ["C15"]),
+    ("graphtage.py", [("            return self.object == other.object and isinstance(self.object, bool) == isinstance(other.object, bool)\n",
+                       "            same_kind = isinstance(self.object, bool) == isinstance(other.object, bool)\n            return same_kind and self.object == other.object\n")],
+     "leaf kind agreement through a local", ["C02", "C08", "C10"]),
+    ("levenshtein.py", [("                return ret or self.bounds().upper_bound < initial_bounds.upper_bound or \\\n                    self.bounds().lower_bound > initial_bounds.lower_bound\n",
+                         "                moved = self.bounds().upper_bound < initial_bounds.upper_bound or \\\n                    self.bounds().lower_bound > initial_bounds.lower_bound\n                return ret or moved\n")],
+     "progress comparison through a local", ["C04"]),
+    ("search.py", [("                        return ret or starting_bounds.lower_bound < self.bounds().lower_bound \\\n                            or starting_bounds.upper_bound > self.bounds().upper_bound\n",
+                    "                        moved = starting_bounds.lower_bound < self.bounds().lower_bound \\\n                            or starting_bounds.upper_bound > self.bounds().upper_bound\n                        return ret or moved\n")],
+     "goal-branch progress through a local", ["C17"]),
+    ("printer.py", [("    global _colorama_initialized\n    if not _colorama_initialized:\n        _colorama_initialized = True\n        colorama.init()\n",
+                     "    global _colorama_initialized\n    if _colorama_initialized:\n        return\n    _colorama_initialized = True\n    colorama.init()\n")],
+     "once-guard written as an early return", ["C07"]),
+    ("json.py", [("        self.parent.print(*args, with_edits=False, **kwargs)\n", "        kwargs['with_edits'] = False\n        self.parent.print(*args, **kwargs)\n")],
+     "with_edits=False passed through kwargs", ["C06"]),
+    ("expressions.py", [("import types\n", "import types\nfrom types import GeneratorType\n"), ("    types.GeneratorType, types.CoroutineType,", "    GeneratorType, types.CoroutineType,")],
+     "one introspection type imported by name", ["C19"]),
+    ("matching.py", [("        if min_edge < np.iinfo(dtype).min or max_edge > np.iinfo(dtype).max:\n", "        if not (np.iinfo(dtype).min <= min_edge and max_edge <= np.iinfo(dtype).max):\n")],
+     "range guard written as a negated containment", ["C15"]),
 ]
